@@ -729,46 +729,48 @@ def type_size_rules(ctx):
             continue
         arms = {}
         for lab, tgt in sw[0]['edges']:
-            # the value assigned to _0 on this arm
+            # the values this arm can return, in Option normal form (the `?` spelling and the combinator spelling coincide);
+            # exits that only propagate a None are left out
             vals = []
             for x in f.exits():
-                if x['block'] in f.reach(tgt) and f.dominates(tgt, x['block']):
-                    vals.append(x['expr'])
+                if x['block'] in f.reach(tgt) and f.dominates(tgt, x['block']) and x['kind'] != 'none_prop':
+                    vals.append(opt_norm(f, expand(f, x['expr'])))
             arms[lab] = vals
+        shw = lambda vals: [v[0] + ' ' + show(v[1])[:100] if len(v) > 1 else v[0] for v in vals]
         for v in ('ConstPointer', 'MutPointer', 'Function'):
             vals = arms.get(v, [])
-            ok = len(vals) == 1 and vals[0][0] == 'agg' and vals[0][1].endswith('Option::Some') and is_call(vals[0][2][0][1], 'pointer_size') and not any(
-                isinstance(x, tuple) and x[0] == 'payload' and x[2] == v for x in walk(vals[0]))
-            ctx.ob(['C02', 'C10'], 'R-EXPR', 'Type::%s|%s' % (name, v), ok, '%s of a %s is Some(pointer_size) and never looks at the pointee: %s' % (name, v, [show(x)[:80] for x in vals]), loc(f.span))
+            ok = len(vals) == 1 and vals[0][0] == 'some' and is_call(strip(vals[0][1]), 'pointer_size') and not any(
+                isinstance(x, tuple) and x[0] == 'payload' and x[2] in ('ConstPointer', 'MutPointer', 'Function') for x in walk(vals[0][1]))
+            ctx.ob(['C02', 'C10'], 'R-EXPR', 'Type::%s|%s' % (name, v), ok, '%s of a %s is Some(pointer_size) and never looks at the pointee: %s' % (name, v, shw(vals)), loc(f.span))
         vals = arms.get('Raw', [])
-        ok = len(vals) == 1 and is_call(vals[0], 'and_then') and is_call(vals[0][2][0], 'TypeRegistry::get')
-        ctx.ob(['C02', 'C11'], 'R-EXPR', 'Type::%s|Raw' % name, ok, '%s of a named type is the registry entry\'s resolved value (by full path): %s' % (name, [show(x)[:100] for x in vals]), loc(f.span))
+        ok = False
+        if len(vals) == 1 and vals[0][0] == 'opt':
+            q = strip(vals[0][1])
+            ok = is_call(q, 'ItemDefinition::' + name) and strip(q[2][0])[0] == 'try' and is_call(strip(strip(q[2][0])[1]), 'TypeRegistry::get') and \
+                any(isinstance(x, tuple) and x[0] == 'payload' and x[2] == 'Raw' for x in walk(strip(strip(q[2][0])[1])[2][1]))
+        ctx.ob(['C02', 'C11'], 'R-EXPR', 'Type::%s|Raw' % name, ok, '%s of a named type is the registry entry\'s resolved %s (entry looked up by the full path): %s' % (name, name, shw(vals)), loc(f.span))
         vals = arms.get('Array', [])
+        elem_of_self = lambda x: any(isinstance(y, tuple) and y[0] == 'payload' and y[2] == 'Array' and y[3] == 0 for y in walk(x))
         if name == 'size':
             ok = False
-            det = [show(x)[:120] for x in vals]
-            if len(vals) == 1 and is_call(vals[0], 'Option::<T>::map') and is_call(vals[0][2][0], 'Type::size'):
-                cl = vals[0][2][1]
-                if cl[0] == 'closure' and cl[1] in P.fns:
-                    cf = P.fns[cl[1]]
-                    ex = cf.exits()
-                    if len(ex) == 1:
-                        e = ex[0]['expr']
-                        det.append(show(e))
-                        # s * count (operator trait call) or checked_mul
-                        ok = (is_call(e, 'Mul') or is_call(e, 'checked_mul') or (e[0] == 'bin' and e[1] == 'Mul')) and \
-                            any(x[0] == 'arg' for x in walk(e)) and any(x[0] == 'upvar' for x in walk(e))
-            elif len(vals) == 1 and is_call(vals[0], 'and_then'):
-                cl = vals[0][2][1]
-                if cl[0] == 'closure' and cl[1] in P.fns:
-                    ex = P.fns[cl[1]].exits()
-                    ok = len(ex) == 1 and is_call(ex[0]['expr'], 'checked_mul')
-                    det.append(show(ex[0]['expr']) if ex else '')
-            ctx.ob(['C02', 'C10'], 'R-EXPR', 'Type::size|Array', ok, 'size of an array is element size × count: %s' % det, loc(f.span))
+            if len(vals) == 1 and vals[0][0] == 'some':
+                e = strip(vals[0][1])
+                # s * count (operator trait call or MIR Mul)
+                if is_call(e, 'Mul') or (e[0] == 'bin' and e[1] == 'Mul'):
+                    ops = [strip(o) for o in (e[2] if e[0] == 'call' else [e[2], e[3]])]
+                    sz = [o for o in ops if o[0] == 'try' and is_call(strip(o[1]), 'Type::size') and elem_of_self(strip(o[1])[2][0])]
+                    cnt = [o for o in ops if any(isinstance(y, tuple) and y[0] == 'payload' and y[2] == 'Array' and y[3] == 1 for y in walk(o))]
+                    ok = len(ops) == 2 and len(sz) == 1 and len(cnt) == 1
+            elif len(vals) == 1 and vals[0][0] == 'opt':
+                e = strip(vals[0][1])
+                if is_call(e, 'checked_mul'):
+                    ops = [strip(o) for o in e[2]]
+                    ok = any(o[0] == 'try' and is_call(strip(o[1]), 'Type::size') and elem_of_self(strip(o[1])[2][0]) for o in ops) and \
+                        any(any(isinstance(y, tuple) and y[0] == 'payload' and y[2] == 'Array' and y[3] == 1 for y in walk(o)) for o in ops)
+            ctx.ob(['C02', 'C10'], 'R-EXPR', 'Type::size|Array', ok, 'size of an array is element size × count: %s' % shw(vals), loc(f.span))
         else:
-            vals = [v for v in vals if not is_call(v, 'from_residual')]
-            ok = len(vals) == 1 and find_calls(vals[0], 'Type::alignment') and not any(isinstance(x, tuple) and x[0] == 'bin' for x in walk(vals[0]))
-            ctx.ob(['C02'], 'R-EXPR', 'Type::alignment|Array', bool(ok), 'alignment of an array is its element\'s alignment: %s' % [show(x)[:100] for x in vals], loc(f.span))
+            ok = len(vals) == 1 and vals[0][0] == 'opt' and is_call(strip(vals[0][1]), 'Type::alignment') and elem_of_self(strip(vals[0][1])[2][0])
+            ctx.ob(['C02'], 'R-EXPR', 'Type::alignment|Array', bool(ok), 'alignment of an array is its element\'s alignment: %s' % shw(vals), loc(f.span))
 
 
 # ------------------------------------------------------------------------------------------------
@@ -823,20 +825,14 @@ def plumbing(ctx):
     ob(['C01', 'C02'], 'Region::size', okr, 'Region::size is the size of the region\'s own type_ref: %s' % (show(e) if e else None), f)
     for nm in ('size', 'alignment'):
         f = one('types::ItemDefinition::' + nm)
-        e = single_exit(f) if f else None
         ok = False
-        if e is not None and is_call(e, 'Option::<T>::map') and is_call(e[2][0], 'ItemDefinition::resolved') and e[2][1][0] == 'closure' and e[2][1][1] in P.fns:
-            ce = single_exit(P.fns[e[2][1][1]])
-            ok = ce is not None and strip(ce)[0] == 'field' and strip(ce)[2] == nm
+        if f:
+            vs = [opt_norm(f, expand(f, x['expr'])) for x in f.exits() if x['kind'] != 'none_prop']
+            if len(vs) == 1 and vs[0][0] == 'some':
+                q = strip(vs[0][1])
+                ok = q[0] == 'field' and q[2] == nm and strip(q[1])[0] == 'try' and is_call(strip(strip(q[1])[1]), 'ItemDefinition::resolved') and \
+                    strip(strip(strip(q[1])[1])[2][0])[0] == 'arg'
         ob(['C01', 'C02'], 'ItemDefinition::' + nm, ok, 'ItemDefinition::%s() is the resolved state\'s `%s` field' % (nm, nm), f)
-        t = one('types::Type::' + nm)
-        okc = False
-        if t:
-            for c in P.closures_of(t):
-                ce = single_exit(c)
-                if ce is not None and is_call(ce, 'ItemDefinition::' + nm):
-                    okc = True
-        ob(['C01', 'C02', 'C11'], 'Type::%s|Raw-closure' % nm, okc, 'for a named type, Type::%s asks the registry entry for its %s (not the other quantity)' % (nm, nm), t)
     f = one('types::ItemDefinition::resolved')
     okr = False
     if f:
